@@ -34,6 +34,9 @@ func genC14(r *Rand, tier string, i int) *h.Scenario {
 	p.PLate = 0
 	p.PDelay = 0.2 // a cancellation while rendering is still delayed must get through as well
 	p.PClientAdd = 0.6
+	if r.Bool(0.04) {
+		p.MinBars, p.MaxBars = 0, 0 // an empty container is cancelled and waited for like any other
+	}
 	sc := GenBase(r, &p)
 	// "no more refreshing": the program closes its refresh channel once its clients are done,
 	// then waits; a cancellation must still get through
@@ -306,6 +309,7 @@ func genC15(r *Rand, tier string, i int) *h.Scenario {
 	p.MaxDecs = 2
 	p.PExt = 0.5
 	p.PTerminal = 0.5
+	p.PTightTerm = 0.35 // an error in a bar that has no line of its own counts all the same
 	p.PQueueAfter = 0
 	p.PDelay = 0
 	p.PLate = 0
